@@ -368,6 +368,14 @@ func (req *Request) CopyTo(dst *Request) {
 		if dst.body != nil {
 			dst.body.Reset()
 		}
+	} else if req.body != nil && len(req.body.B) > 0 {
+		dst.BodyBuffer().Set(req.body.B)
+	} else if req.OnlyMultipartForm() {
+		// the form was parsed while the request was read and no body bytes were kept: give the copy the
+		// marshalled form, from which it re-creates the form on the first call to MultipartForm
+		if b, err := MarshalMultipartForm(req.multipartForm, req.multipartFormBoundary); err == nil {
+			dst.BodyBuffer().Set(b)
+		}
 	} else if req.body != nil {
 		dst.BodyBuffer().Set(req.body.B)
 	} else if dst.body != nil {
